@@ -177,6 +177,7 @@ r("C19", "syntax returns 0 after an error", U, "    if (econf_error) {\n	print_e
 r("C19", "cat stops one early", U, "for (size_t i=0; i < size; i++) {", "for (size_t i=0; i + 1 < size; i++) {")
 r("C19", "cat with fixed delimiter", U, "				       conf_suffix, delimiters, comment);\n  if (econf_error) {\n    print_error(econf_error);\n    return -1;\n  }\n\n  pr_header();", "				       conf_suffix, \"=\", comment);\n  if (econf_error) {\n    print_error(econf_error);\n    return -1;\n  }\n\n  pr_header();")
 r("C19", "revert D17", U, "        const char *group = (g == 0) ? NULL : groups[g-1];", "        const char *group = groups[g ? g-1 : 0]; if (g == 0) continue;")
+r("C19", "revert D34 (empty section ends the listing)", U, "        if (g > 0 && econf_error == ECONF_NOKEY) {\n            /* a section without any key: it is listed, and the following\n               sections are still shown */\n            printf(\"%s\\n\\n\", group);\n            continue;\n        }\n", "")
 # ---- C20 ----------------------------------------------------------------------------------------------------------------
 r("C20", "dangling out-pointer", G, "    econf_free(*key_file);\n    *key_file = NULL;\n    return t_err;", "    econf_free(*key_file);\n    return t_err;")
 r("C20", "main probe error leaks", RC, "       if (error && error != ECONF_NOFILE) {\n	  econf_free(key_file);\n	  return error;", "       if (error && error != ECONF_NOFILE) {\n	  return error;")
